@@ -387,6 +387,32 @@ Definition resub (ref rep s : string) : string :=
 Definition rewrite_all (subs : list (string * string)) (s : string) : string :=
   fold_left (fun acc sr => resub (fst sr) (snd sr) acc) subs s.
 
+(* what the rewriting is meant to be: every word that is a reference becomes the replacement of that reference,
+   all at once ([simul]); the conditions under which the code's one-after-the-other loop achieves it: no
+   reference is visited before a reference it occurs in ([ordered]; longest SPELLING first is such an order), the
+   references begin and end with a word character, and no reference occurs in a replacement. *)
+Definition simul (subs : list (string * string)) (w : string) : string :=
+  match lookup w subs with Some rep => rep | None => w end.
+Definition no_ref_in (subs : list (string * string)) (s : string) : bool :=
+  forallb (fun sr => negb (occurs (fst sr) s)) subs.
+(* a word of the arguments that is one of the references, or in which no reference occurs at all *)
+Definition plain_word (subs : list (string * string)) (w : string) : bool :=
+  mem w (map fst subs) || no_ref_in subs w.
+Fixpoint longest_first (subs : list (string * string)) : bool :=
+  match subs with
+  | [] => true
+  | sr :: t => forallb (fun sr' => Nat.leb (String.length (fst sr')) (String.length (fst sr))) t && longest_first t
+  end.
+(* what the order is needed for: no reference occurs in a (different) reference that is visited later *)
+Fixpoint ordered (subs : list (string * string)) : bool :=
+  match subs with
+  | [] => true
+  | sr :: t => forallb (fun sr' => String.eqb (fst sr') (fst sr) || negb (occurs (fst sr) (fst sr'))) t && ordered t
+  end.
+Definition edges_ok (subs : list (string * string)) : bool :=
+  forallb (fun sr => headw (fst sr) && lastw (fst sr)) subs.
+Definition inert (subs : list (string * string)) : bool := forallb (fun sr => no_ref_in subs (snd sr)) subs.
+
 (* the argument string as written: reference tokens by their spelling *)
 Definition tok_text (rs : list dref) (t : tok) : string :=
   match t with TLit s => s | TRef i => match nth_error rs i with Some r => d_text r | None => "" end end.
@@ -431,6 +457,25 @@ Fixpoint subs_of (fuzzy : bool) (ph : nat -> option string) (disc : list string)
           end
       end
   end.
+
+(* the order in which the code visits the references:
+     datarefs = sorted(self.dataReferences, key=lambda d: len(d.stringRepresentation), reverse=True)
+   self.dataReferences lists the direct references (inputs, data, paths) before the references to components,
+   each group in the order of the component's description; sorted() is stable (also with reverse=True) and the
+   key is the length of the ABSOLUTE reference string (d_key), not of the spelling that is substituted. *)
+Definition klen (rs : list dref) (j : nat) : nat :=
+  match nth_error rs j with Some r => String.length (d_key r) | None => 0 end.
+Fixpoint insert_len (rs : list dref) (j : nat) (l : list nat) : list nat :=
+  match l with
+  | [] => [j]
+  | k :: t => if Nat.leb (klen rs k) (klen rs j) then j :: l else k :: insert_len rs j t
+  end.
+Definition is_direct (rs : list dref) (j : nat) : bool :=
+  match nth_error rs j with Some r => match d_prod r with None => true | Some _ => false end | None => false end.
+Definition listing (rs : list dref) : list nat :=
+  let all := seq 0 (List.length rs) in
+  filter (is_direct rs) all ++ filter (fun j => negb (is_direct rs j)) all.
+Definition code_order (rs : list dref) : list nat := fold_right (insert_len rs) [] (listing rs).
 
 Definition args_chars (fuzzy : bool) (ph : nat -> option string) (disc : list string) (order : list nat) (c : comp)
   : option string :=
@@ -491,8 +536,12 @@ Definition delimited_comp (md5 : string -> string) (fuzzy : bool) (ph : nat -> o
   (x : comp * (list string * list nat)) : bool :=
   let '(c, (disc, order)) := x in
   list_eqb tok_eqb (c_args c) (blanks (unblanks (c_args c))) && delimited md5 fuzzy ph disc order c (unblanks (c_args c)).
+(* the visiting order the run reports for the implementation is the one the model computes from the description *)
+Definition order_ok (x : comp * (list string * list nat)) : bool :=
+  let '(c, (_, order)) := x in list_eqb Nat.eqb order (code_order (c_refs c)).
 Definition check_case_chars (k : list (string * string) * list (comp * (list string * list nat)) * (list obs * list obs)) : bool :=
   let '(tbl, g, (os, of)) := k in
+  forallb order_ok g &&
   all2 (obs_matches tbl) (infos_chars (tbl_md5 tbl) false g) os &&
   all2 (obs_matches tbl) (infos_chars (tbl_md5 tbl) true g) of.
 (* the same case restricted to the token model (used for the worlds the harness builds blank-delimited) *)
